@@ -33,6 +33,7 @@ const (
 	KMap // constant table
 	KPtr // pointer to a local cell
 	KFunc
+	KQCmp // boolean "q S I" (S is the comparison operator, I the constant), possibly negated via flipped S
 )
 
 // AV is an abstract value.
@@ -81,6 +82,8 @@ func (a AV) String() string {
 		return "ptr"
 	case KFunc:
 		return "func"
+	case KQCmp:
+		return fmt.Sprintf("(q%s%d)", a.S, a.I)
 	}
 	return "?"
 }
@@ -302,7 +305,14 @@ func (ev *PEval) block(s *pstate, fr *frame, b *ssa.BasicBlock, pred *ssa.BasicB
 				}
 				return
 			}
-			ts, fs, ok := ev.split(s, x.Cond)
+			var ts, fs *pstate
+			ok := false
+			if c.K == KQCmp {
+				ts, fs = ev.splitCmp(s, c)
+				ok = true
+			} else {
+				ts, fs, ok = ev.split(s, x.Cond)
+			}
 			if !ok {
 				ts, fs = s.fork(), s
 				ts.trail = append(ts.trail, ev.P.Pos(x.Cond.Pos())+":?T")
@@ -328,7 +338,7 @@ func (ev *PEval) block(s *pstate, fr *frame, b *ssa.BasicBlock, pred *ssa.BasicB
 			for i, r := range x.Results {
 				res[i] = ev.val(s, r)
 			}
-			k(s, res, false)
+			ev.emit(s, res, k)
 			return
 		case *ssa.Panic:
 			ev.paths++
@@ -353,6 +363,28 @@ func (ev *PEval) block(s *pstate, fr *frame, b *ssa.BasicBlock, pred *ssa.BasicB
 			// Defer, Go, RunDefers, MapUpdate, Send, DebugRef: no abstract effect tracked
 		}
 	}
+}
+
+// emit delivers function results, forking on symbolic comparison results so that every outcome
+// carries plain booleans.
+func (ev *PEval) emit(s *pstate, res []AV, k cont) {
+	for i, a := range res {
+		if a.K == KQCmp {
+			ts, fs := ev.splitCmp(s, a)
+			if !ts.q.Empty() {
+				r2 := append([]AV(nil), res...)
+				r2[i] = AV{K: KBool, B: true}
+				ev.emit(ts, r2, k)
+			}
+			if !fs.q.Empty() {
+				r2 := append([]AV(nil), res...)
+				r2[i] = AV{K: KBool, B: false}
+				ev.emit(fs, r2, k)
+			}
+			return
+		}
+	}
+	k(s, res, false)
 }
 
 // split refines q along a comparison; returns (trueState, falseState, ok).
@@ -408,6 +440,36 @@ func (ev *PEval) split(s *pstate, cond ssa.Value) (*pstate, *pstate, bool) {
 	ts.trail = append(ts.trail, tr)
 	fs.trail = append(fs.trail, "!("+tr+")")
 	return ts, fs, true
+}
+
+func negOp(op string) string {
+	switch op {
+	case "==":
+		return "!="
+	case "!=":
+		return "=="
+	case "<":
+		return ">="
+	case "<=":
+		return ">"
+	case ">":
+		return "<="
+	case ">=":
+		return "<"
+	}
+	return op
+}
+
+// splitCmp refines q along a symbolic comparison value.
+func (ev *PEval) splitCmp(s *pstate, c AV) (*pstate, *pstate) {
+	reg := CmpRegion(c.S, c.I)
+	ts, fs := s.fork(), s.fork()
+	ts.q = s.q.Intersect(reg)
+	fs.q = s.q.Minus(reg)
+	tr := fmt.Sprintf("q%s%d", c.S, c.I)
+	ts.trail = append(ts.trail, tr)
+	fs.trail = append(fs.trail, "!("+tr+")")
+	return ts, fs
 }
 
 func flipOp(op string) string {
@@ -629,7 +691,7 @@ func (ev *PEval) doCall(s *pstate, fr *frame, b, pred *ssa.BasicBlock, idx int, 
 		}
 	}
 	if callee != nil {
-		if av, ok := knownExternal(callee, x); ok {
+		if av, ok := knownExternal(callee, x, args); ok {
 			s.env[x] = av
 			return false
 		}
@@ -668,7 +730,7 @@ func unknownResult(t types.Type) AV {
 }
 
 // knownExternal summarises error constructors as definitely non-nil.
-func knownExternal(callee *ssa.Function, call *ssa.Call) (AV, bool) {
+func knownExternal(callee *ssa.Function, call *ssa.Call, args []AV) (AV, bool) {
 	pkg := FnPkgPath(callee)
 	name := callee.Name()
 	nonnil := false
@@ -678,6 +740,14 @@ func knownExternal(callee *ssa.Function, call *ssa.Call) (AV, bool) {
 		case "Errorf", "New", "Wrapf", "Wrap", "Join":
 			// Wrap/Wrapf return nil for a nil cause; only Errorf/New are unconditional
 			nonnil = name == "Errorf" || name == "New"
+			if (name == "Wrapf" || name == "Wrap") && len(args) > 0 {
+				switch nilness(args[0]) {
+				case 2:
+					nonnil = true
+				case 1:
+					return AV{K: KNil}, true
+				}
+			}
 		}
 	case "errors":
 		nonnil = name == "New"
@@ -749,6 +819,9 @@ func (ev *PEval) instr(s *pstate, fr *frame, v ssa.Value) AV {
 		case token.NOT:
 			if a.K == KBool {
 				return AV{K: KBool, B: !a.B}
+			}
+			if a.K == KQCmp {
+				return AV{K: KQCmp, S: negOp(a.S), I: a.I}
 			}
 		case token.SUB:
 			if a.K == KInt {
@@ -900,6 +973,14 @@ func (ev *PEval) binop(op token.Token, x, y AV, t types.Type) AV {
 			return AV{K: KQ, I: x.I + y.I}
 		case token.SUB:
 			return AV{K: KQ, I: x.I - y.I}
+		case token.EQL, token.NEQ, token.LSS, token.LEQ, token.GTR, token.GEQ:
+			return AV{K: KQCmp, S: op.String(), I: y.I - x.I}
+		}
+	}
+	if x.K == KInt && y.K == KQ {
+		switch op {
+		case token.EQL, token.NEQ, token.LSS, token.LEQ, token.GTR, token.GEQ:
+			return AV{K: KQCmp, S: flipOp(op.String()), I: x.I - y.I}
 		}
 	}
 	if x.K == KInt && y.K == KQ && op == token.ADD {
